@@ -128,7 +128,8 @@ VALUE_ATTRS = {
     "rec": {"duration": "dur", "end_point": "tp", "max_point": "tp",
             "min_point": "tp", "start_point": "tp"}}
 STRF = ["%Y-%m-%dT%H:%M:%S%z", "%j %X", "%s", "CCYY-Www-DThh:mm:ssZ",
-        "+XCCYY-DDDThh,ii+hh:mm", "%Y%m%d"]
+        "+XCCYY-DDDThh,ii+hh:mm", "%Y%m%d", "CCYY-MM-DDThh:mm:ss+05:30",
+        "CCYYDDDThhmm-1100", "%a %b %d %H:%M:%S %Y", "CCYY-MM-DDThh:mm,nn"]
 EXPECTED_PROBES = ["op_on_2400_operand", "op_on_aliased_result",
                    "result_is_operand", "shared_subobject", "op_raised",
                    "truncated_addition", "rec_built_from_pool_values"]
@@ -893,6 +894,9 @@ class Sim(object):
                     continue
                 self.admit(step["id"], val, [])
                 self.sig.append("mk:" + step["t"])
+                # parsing / constructing a new value is a public operation
+                # too: it must leave every earlier value alone
+                self.check_all(step_no, "mk." + step["t"], [], False)
                 continue
             name = step["m"]
             missing = [o for o in step["a"] if o not in self.pool]
